@@ -176,10 +176,11 @@ theorem exec_room : ∀ (rest : List Seq) (s : Seq) (out last fin : List UInt8),
       have := ih s' out2 last fin h (EC_tail s (s' :: rest) last hec)
       omega
 
-/-- **a block that is valid under the format document meets the forward hypothesis** -/
-theorem vtail_of_valid (N : Nat) : ∀ (f : Nat) (inp out : List UInt8) (seqs : List Seq) (last fin : List UInt8) (op : Nat),
-    parseAux f inp = some (seqs, last) → exec out seqs last = some fin → EC seqs last → op + fin.length ≤ N + out.length →
-    VTail N f op inp out := by
+/-- **a block that is valid under the format document meets the forward hypothesis**
+    (room for the whole content is needed for full decoding only) -/
+theorem vtail_of_valid (env : Env) (N : Nat) : ∀ (f : Nat) (inp out : List UInt8) (seqs : List Seq) (last fin : List UInt8) (op : Nat),
+    parseAux f inp = some (seqs, last) → exec out seqs last = some fin → EC seqs last →
+    (env.partialD = true ∨ op + fin.length ≤ N + out.length) → VTail env N f op inp out := by
   intro f
   induction f with
   | zero => intro inp out seqs last fin op h; simp [parseAux] at h
@@ -196,7 +197,11 @@ theorem vtail_of_valid (N : Nat) : ∀ (f : Nat) (inp out : List UInt8) (seqs : 
       subst h1 h2
       simp only [exec, Option.some.injEq] at he
       rw [← he, List.length_append] at hroom
-      exact ⟨by dsimp only; omega, trivial⟩
+      refine ⟨?_, trivial⟩
+      dsimp only
+      rcases hroom with h | h
+      · exact Or.inl h
+      · right; omega
     | seq s rest =>
       rw [hps] at hp
       dsimp only at hp ⊢
@@ -222,7 +227,13 @@ theorem vtail_of_valid (N : Nat) : ∀ (f : Nat) (inp out : List UInt8) (seqs : 
           rw [List.length_append] at hoff
           have hlast := (hec (by simp)).1
           have hrl := parseAux_length f rest seqs' last' hr
-          refine ⟨⟨hoff.1, hoff.2, by omega, by omega, by omega⟩, out2, rfl, ?_⟩
-          exact ih rest out2 seqs' last' fin _ hr he (EC_tail s seqs' last' hec) (by omega)
+          refine ⟨⟨hoff.1, hoff.2, ?_, by omega⟩, out2, rfl, ?_⟩
+          · rcases hroom with h | h
+            · exact Or.inl h
+            · right; omega
+          · refine ih rest out2 seqs' last' fin _ hr he (EC_tail s seqs' last' hec) ?_
+            rcases hroom with h | h
+            · exact Or.inl h
+            · right; omega
 
 end LZ4V.Model.Decode
